@@ -445,6 +445,8 @@ fn absurd_check(case: &SimCase, st: &mut Stats) -> Result<(), String> {
 }
 
 pub fn c10_handlers(env: &Env) -> i32 {
+    // a process death (abort inside a scope task, stack overflow, ...) while a case runs is a violation of C10 with that case as the replay
+    common::crashdump::arm(&env.property);
     if let Mode::Replay(path) = env.mode() {
         let (part, case) = Env::read_replay(&path);
         if part != "handlers" {
